@@ -4,7 +4,7 @@ import Oracle.Util
    harness/cmd/corr/c16_content.go for the op-line format):
      pc <b>,<i>,<e> <msghex|-> <tree tokens…>
         → es=<fields> | esdoc=<fields> | hec=<fields> | loki=<fields> | otlp=<fields>
-   tree tokens (prefix form): O<n> then n×(k<hexkey> value) | A<n> then n values | s<hex> | n<tok>~<jtok> | t | f | z -/
+   tree tokens (prefix form): O<n> then n×(k<hexkey> value) | A<n> then n values | s<hex> | r<count>.<hexunit> | n<tok>~<jtok> | t | f | z -/
 namespace Oracle.C16C
 open SigModel.Spec.Flatten Oracle
 
@@ -53,6 +53,17 @@ mutual
             | none => none
             | some k => (parseElems fuel k rest).map (fun (xs, r) => (.arr xs, r)))
         | 's' :: h => (hexBytes? (String.ofList h)).map (fun b => (.leaf (.str b), rest))
+        | 'r' :: body =>
+          -- r<count>.<hexunit>: a unit of 1 or 2 bytes repeated (long strings)
+          (match (String.ofList body).splitOn "." with
+          | [n, h] =>
+            if n.isEmpty || n.length > 6 || !n.all Char.isDigit then none else
+            match n.toNat?, hexBytes? h with
+            | some cnt, some u =>
+              if u.isEmpty || u.length > 2 then none
+              else some (.leaf (.str ((List.replicate cnt u).flatten)), rest)
+            | _, _ => none
+          | _ => none)
         | 'n' :: body =>
           (match (String.ofList body).splitOn "~" with
           | [a, b] => if numSyntax a.toList && numSyntax b.toList then some (.leaf (.num a.toList b.toList), rest) else none
